@@ -110,6 +110,7 @@ def gen_case(rng, tier, stage=None):
         if same_src:
             st = rng.choice(["delay", "gamma", "chain"])
         case["stage"] = st
+        case["second_run"] = rng.random() < 0.3
         if st in ("edge", "edge-cross"):
             # algebraic coupling template reading the pre-synaptic value and a post-synaptic variable
             cn = conns[0] if cross else rng.choice([c for c in conns if "W" in c] or [None])
@@ -129,8 +130,10 @@ def gen_case(rng, tier, stage=None):
                 continue
             ops["D"] = {"name": "lp", "eqs": [{"lhs": "u", "de": True, "rhs": M.mul(M.var("kk"), M.sub(M.var("pre"), M.var("u")))}, {"lhs": "s", "de": False, "rhs": M.var("u")}],
                         "vars": {"u": {"decl": "var", "value": "0"}, "pre": {"decl": "input", "value": "0"}, "kk": {"decl": "const", "value": "2"}, "s": {"decl": "output", "value": "0"}}}
+            same_name = rng.random() < 0.5          # two re-parametrised copies of one edge template that keep its name
+            k0 = rng.randint(0, 3)
             for k, cn in enumerate(mats[:2]):
-                cn["edge"] = {"op": "D", "name": f"lp_edge{k}", "var_map": {"pre": "source"}, "values": {"kk": str(F(rng.choice([1, 2, 4, 6]), 1))}}
+                cn["edge"] = {"op": "D", "name": (f"lp_edge{k}" if not same_name else "lp_edge"), "var_map": {"pre": "source"}, "values": {"kk": str(F([1, 2, 4, 6][(k0 + 2 * k) % 4], 1))}}
         elif st == "delay" and same_src:
             ds_ = rng.sample([2, 3, 4, 5], 2)
             pattern = [ds_[0], ds_[1], ds_[1]]          # a repeated delay that is not the first one's
@@ -269,6 +272,10 @@ def impl_pop(case):
                     kw["dde_approx"] = case["dde"]
                 res = c.run(simulation_time=float(F(rc["T"])), step_size=float(F(rc["dt"])), solver=rc["solver"], outputs=outputs, verbose=False,
                             float_precision="float64", clear=True, **kw)
+                if case.get("second_run"):
+                    # the same template objects compiled and simulated once more in the same process: the populations keep their per-unit values
+                    res = c.run(simulation_time=float(F(rc["T"])), step_size=float(F(rc["dt"])), solver=rc["solver"], outputs=outputs, verbose=False,
+                                float_precision="float64", clear=True, **kw)
                 cols = []
                 for j, col in enumerate(res.columns):
                     label = [str(x) for x in col] if isinstance(col, tuple) else [str(col)]
@@ -305,7 +312,7 @@ def check(tier, seed, replay=None):
             raise C.HarnessError("Lean trajectory of the explicit network and the Fraction oracle disagree: " + json.dumps(case)[:400])
         kinds = sorted({"scalar" if "scalar" in c else "matrix" for c in case["conns"]})
         nmax = max(p["n"] for p in case["pops"].values())
-        rep.count(case.get("stage", "plain") + "-" + "+".join(kinds), json.dumps(case, sort_keys=True), nontrivial=nmax >= 2 and len(case["conns"]) >= 2)
+        rep.count(case.get("stage", "plain") + "-" + "+".join(kinds) + ("-2ndrun" if case.get("second_run") else ""), json.dumps(case, sort_keys=True), nontrivial=nmax >= 2 and len(case["conns"]) >= 2)
         if "error" in im:
             kf = [k for k, (pred, _) in KNOWN.items() if k in active_kf and pred(case, im, None)]
             if kf:
